@@ -487,7 +487,7 @@ INVERSE_RECIPROCAL = {'arcsec': 'arccos', 'arccsc': 'arcsin', 'arcsech': 'arccos
 
 
 def d2_definitions(ctx, idx, env):
-    r = ctx.rule('D2.DEFS', 'derived functions equal their textbook definitions (normal-form comparison)', floor=22)
+    r = ctx.rule('D2.DEFS', 'derived functions equal their textbook definitions (normal-form comparison)', floor=25)
     with r:
         mod = idx.module(MFQ)
 
@@ -515,7 +515,18 @@ def d2_definitions(ctx, idx, env):
         fi = idx.func(MFQ + '.arccot')
         b = param_binds(fi, ['_X'])
         paths = nf.decision_paths(fi.node.body)
-        if len(paths) != 2 or any(p.leaf.kind != 'ret' or len(p.guards) != 1 for p in paths):
+        if len(paths) == 1 and paths[0].leaf.kind == 'ret' and not paths[0].guards and \
+                classify_def(idx, mod, ['np.arctan(1 / _X)', '1 / np.arctan(_X)', 'np.arctan(_X)', 'np.pi / 2 - np.arctan(_X)',
+                                        '-np.pi / 2 - np.arctan(_X)'], paths[0].leaf.expr, b) == nf.MATCH:
+            recip = classify_def(idx, mod, ['np.arctan(1 / _X)'], paths[0].leaf.expr, b) == nf.MATCH
+            for br in ('Re x < 0', 'Re x >= 0'):
+              r.violation('mathfuncs.arccot [%s]' % br, ('arccot is defined as arctan(1/x): undefined at 0 where arccot(0) = pi/2 (1/0 raises a '
+                        'domain error), and the documented branch pi/2 - arctan(x) / -pi/2 - arctan(x) on the sign of the real part is lost')
+                          if recip else 'arccot is a single expression `%s`: the documented branch pi/2 - arctan(x) for Re x >= 0 and '
+                          '-pi/2 - arctan(x) for Re x < 0 is lost' % short(paths[0].leaf.expr), lib.loc(fi, paths[0].leaf.stmt),
+                          expected='-pi/2 - arctan(x) if real(x) < 0 else pi/2 - arctan(x)', found=short(paths[0].leaf.expr))
+            paths = []
+        elif len(paths) != 2 or any(p.leaf.kind != 'ret' or len(p.guards) != 1 for p in paths):
             raise AnalysisError('arccot: expected two guarded returns')
         for p in paths:
             g = p.guards[0]
@@ -751,7 +762,7 @@ DECO = SDQ + '.SpecifyDomain.make_decorator'
 
 def d4_decorator(ctx, idx, env):
     r = ctx.rule('D4.DECORATOR', 'the domain decorator raises ArgumentError for a wrong count, ArgumentShapeError for a wrong '
-                                 'shape, and calls the function only with validated arguments', floor=14)
+                                 'shape, and calls the function only with validated arguments', floor=17)
     with r:
         mk = idx.func(DECO)
         dec = idx.func(DECO + '.<locals>.decorator')
@@ -1006,7 +1017,7 @@ def d4_decorator(ctx, idx, env):
 
 def d4_evalfn(ctx, idx, env):
     r = ctx.rule('D4.EVALFN', 'eval_function validates arity for unvalidated callables before the call and recasts failures as '
-                              'student-facing errors', floor=10)
+                              'student-facing errors', floor=11)
     with r:
         fi = idx.func(MEQ + '.eval_function')
         mod = fi.module
@@ -1248,6 +1259,10 @@ MUTANTS = [
     Mutant('arccoth-without-reciprocal', MF, "    return np.arctanh(1. / val)", "    return np.arctanh(val)", 'D2'),
     Mutant('csch-through-cosh', MF, "    return 1 / np.sinh(arg)", "    return 1 / np.cosh(arg)", 'D2'),
     Mutant('cot-not-reciprocal', MF, "    return 1 / np.tan(arg)", "    return np.tan(arg)", 'D2'),
+    Mutant('seeded-C15a-arccot-as-arctan-of-reciprocal', MF, "    if np.real(val) < 0:\n        return -np.pi / 2 - np.arctan(val)\n    else:\n        return np.pi / 2 - np.arctan(val)",
+           "    return np.arctan(1. / val)", 'D2'),
+    Mutant('arccot-single-branch', MF, "    if np.real(val) < 0:\n        return -np.pi / 2 - np.arctan(val)\n    else:\n        return np.pi / 2 - np.arctan(val)",
+           "    return np.pi / 2 - np.arctan(val)", 'D2'),
     Mutant('arccot-branch-sign', MF, "        return -np.pi / 2 - np.arctan(val)", "        return np.pi / 2 - np.arctan(val)", 'D2'),
     Mutant('arccot-branch-strictness', MF, "    if np.real(val) < 0:", "    if np.real(val) <= 0:", 'D2'),
     Mutant('kronecker-inverted', MF, "    if x == y:\n        return 1\n    return 0", "    if x == y:\n        return 0\n    return 1", 'D2'),
@@ -1297,5 +1312,7 @@ BENIGN = [
     Benign('explicit-scalar-entry', MF, "SCALAR_FUNCTIONS['arctan2'] = arctan2",
            "SCALAR_FUNCTIONS['arctan2'] = arctan2\nSCALAR_FUNCTIONS['exp'] = has_one_scalar_input('exp')(np.exp)"),
     Benign('gate-generator', SD, "                if all([error is None for error in errors]):", "                if all((error is None for error in errors)):"),
+    Benign('arccot-conditional-inverted', MF, "    if np.real(val) < 0:\n        return -np.pi / 2 - np.arctan(val)\n    else:\n        return np.pi / 2 - np.arctan(val)",
+           "    if np.real(val) >= 0:\n        return np.pi / 2 - np.arctan(val)\n    return -np.pi / 2 - np.arctan(val)"),
     Benign('kronecker-else', MF, "    if x == y:\n        return 1\n    return 0", "    if x != y:\n        return 0\n    else:\n        return 1"),
 ]
